@@ -16,7 +16,7 @@ class Session:
         self.confirm = tier != 'quick'
         self.queries = []          # dicts: name, verdict, expected, solver, time
         self.violations = []       # dicts: what, detail, replay (recipe)
-        self.notes = []
+        self.notes = []; self.abstracted = []
         self.samples = []
         self.functions = set(); self.contracts = set(); self.bounds = {}
         self.paths = 0; self.blocks = 0
@@ -31,6 +31,8 @@ class Session:
         self.paths += ex.stats['paths']; self.blocks += ex.stats.get('blocks', 0)
         ex.stats['paths'] = 0; ex.stats['blocks'] = 0
         for u in ex.stats.pop('unsupported', []): self.undecided.append('path abandoned: ' + u)
+        for u in ex.stats.pop('abstracted', []):
+            if u not in self.abstracted: self.abstracted.append(u); self.notes.append('abstraction: ' + u)
 
     # ------------------------------------------------------------------ queries
     def ask(self, name, assertions, expect, honest=None, attacker=(), values=None, extra_lemmas=(), timeout=None):
@@ -71,11 +73,12 @@ class Session:
         self.functions |= set(d['functions']); self.contracts |= set(d['contracts']); self.bounds.update(d['bounds'])
         self.paths += d['paths']; self.blocks += d['blocks']; self.witnesses += d['witnesses']; self.undecided += d['undecided']
         self.native_runs += d.get('native_runs', 0)
+        self.abstracted += [a for a in d.get('abstracted', []) if a not in self.abstracted]
 
     def export(self):
         return {'queries': self.queries, 'violations': self.violations, 'notes': self.notes, 'samples': self.samples,
                 'functions': sorted(self.functions), 'contracts': sorted(self.contracts), 'bounds': self.bounds,
-                'paths': self.paths, 'blocks': self.blocks, 'witnesses': self.witnesses, 'undecided': self.undecided, 'native_runs': self.native_runs}
+                'paths': self.paths, 'blocks': self.blocks, 'witnesses': self.witnesses, 'undecided': self.undecided, 'native_runs': self.native_runs, 'abstracted': self.abstracted}
 
 
 def model_bytes(rec, terms):
